@@ -47,10 +47,22 @@ type Proc struct {
 	seq     int
 	Timeout int // ms, per check
 	dead    bool
+	Kind    string // "z3" | "cvc5-int"
 }
 
-func StartZ3(timeoutMs int) (*Proc, error) {
-	cmd := exec.Command("z3", "-in")
+func StartZ3(timeoutMs int) (*Proc, error) { return StartSolver("z3", timeoutMs) }
+
+// StartSolver starts the primary incremental solver: "z3" (bit-blasting) or "cvc5-int"
+// (cvc5 --solve-bv-as-int=sum: bit-vectors translated to integers, mod-2^k semantics kept).
+func StartSolver(kind string, timeoutMs int) (*Proc, error) {
+	var cmd *exec.Cmd
+	switch kind {
+	case "cvc5-int":
+		cmd = exec.Command("cvc5", "--lang=smt2", "--incremental", "--solve-bv-as-int=sum", "--produce-models")
+	default:
+		kind = "z3"
+		cmd = exec.Command("z3", "-in")
+	}
 	in, err := cmd.StdinPipe()
 	if err != nil {
 		return nil, err
@@ -63,7 +75,7 @@ func StartZ3(timeoutMs int) (*Proc, error) {
 	if err := cmd.Start(); err != nil {
 		return nil, err
 	}
-	p := &Proc{cmd: cmd, in: in, out: bufio.NewReaderSize(outp, 1<<16), Timeout: timeoutMs}
+	p := &Proc{cmd: cmd, in: in, out: bufio.NewReaderSize(outp, 1<<16), Timeout: timeoutMs, Kind: kind}
 	return p, nil
 }
 
@@ -116,6 +128,9 @@ func NewSession(p *Proc, c *Ctx) *Session {
 }
 
 func (s *Session) header() string {
+	if s.P.Kind == "cvc5-int" {
+		return fmt.Sprintf("(reset)\n(set-option :produce-models true)\n(set-option :tlimit-per %d)\n(set-logic ALL)\n", s.P.Timeout)
+	}
 	return fmt.Sprintf("(reset)\n(set-option :produce-models true)\n(set-option :timeout %d)\n", s.P.Timeout)
 }
 
@@ -214,9 +229,14 @@ func (s *Session) Check(extra *Term) (Result, map[string]uint64, error) {
 	}
 	q.WriteString("(check-sat)\n")
 	sb.WriteString(q.String())
+	tq := time.Now()
 	out, err := s.P.roundtrip(sb.String())
 	if err != nil {
 		return Unknown, nil, err
+	}
+	if d := os.Getenv("SYMGO_SLOW"); d != "" && time.Since(tq) > 500*time.Millisecond {
+		dumpN++
+		os.WriteFile(fmt.Sprintf("%s/slow-%d-%d.smt2", d, os.Getpid(), dumpN), []byte(fmt.Sprintf("; %v\n", time.Since(tq))+s.Script(extra, false)), 0o644)
 	}
 	res := Unknown
 	if strings.Contains(out, "(error") {
